@@ -292,6 +292,10 @@ class Check:
         self.assumptions = []
         self.rng = random.Random(seed)
         self._replay_n = 0
+        rdir = os.path.join(VERIF, "replays", pid)
+        if os.path.isdir(rdir):
+            for f in os.listdir(rdir):
+                if f.startswith(tier + "_"): os.remove(os.path.join(rdir, f))
 
     def violation(self, what, replay, found_input=True):
         if len(self.violations) >= 20:
